@@ -43,7 +43,7 @@ var c09Rename = map[string]string{
 }
 
 var c09Coms = [][]string{
-	{"CHF"}, {"CHF", "USD"}, {"CHF", "USD", "ÄÖ"}, {"CHF", "USD", "EUR", "ÄÖ"}, {"CHF", "ÄÖ", "X1"}, {"CHF", "USD", "AAPL", "ŁÓ9"},
+	{"CHF"}, {"CHF", "USD"}, {"CHF", "USD", "ÄÖ"}, {"CHF", "USD", "EUR", "ÄÖ"}, {"CHF", "ÄÖ", "X1"}, {"CHF", "USD", "AAPL", "ŁÓ9"}, {"CHF", "USD", "usd", "Usd"},
 }
 
 var c09Descs = []string{
